@@ -267,7 +267,15 @@ public:
     {
         for(size_type i = 0; i < theLength; ++i)
         {
-            if (isUTF16HighSurrogate(theChars[i]) == false)
+            if (isUTF16LowSurrogate(theChars[i]) == true)
+            {
+                // A low surrogate that does not follow a high surrogate.
+                throwInvalidUTF16SurrogateException(
+                    theChars[i],
+                    0,
+                    getMemoryManager());
+            }
+            else if (isUTF16HighSurrogate(theChars[i]) == false)
             {
                 write(static_cast<XalanUnicodeChar>(theChars[i]));
             }
@@ -299,7 +307,15 @@ public:
     {
         const XalanDOMChar  ch = chars[start];
 
-        if (isUTF16HighSurrogate(ch) == false)
+        if (isUTF16LowSurrogate(ch) == true)
+        {
+            // A low surrogate that does not follow a high surrogate.
+            throwInvalidUTF16SurrogateException(
+                ch,
+                0,
+                getMemoryManager());
+        }
+        else if (isUTF16HighSurrogate(ch) == false)
         {
             write(static_cast<XalanUnicodeChar>(ch));
         }
@@ -350,6 +366,14 @@ public:
 
                     ++i;
                 }
+            }
+            else if (isUTF16LowSurrogate(ch) == true)
+            {
+                // A low surrogate that does not follow a high surrogate.
+                throwInvalidUTF16SurrogateException(
+                    ch,
+                    0,
+                    getMemoryManager());
             }
             else
             {
